@@ -4,6 +4,7 @@ use std::collections::{BTreeMap, HashSet};
 
 pub mod c04;
 pub mod c07;
+pub mod c11;
 pub mod c12;
 pub mod lang;
 
@@ -66,6 +67,7 @@ pub fn generate(prop: &str, tier: &str, g: &mut Gen) {
         "C03" => lang::generate_c03(g, thorough),
         "C04" => c04::generate(g, thorough),
         "C07" => c07::generate(g, thorough),
+        "C11" => c11::generate(g, thorough),
         _ => {}
     }
 }
